@@ -125,6 +125,7 @@ def _run_one(prop, verif_seed, i, keep_ops=False, max_steps=None, banned=(), tie
             op = g.next_op()
             ops.append(op)
             steps.append(w.execute(op))
+            g.note(steps[-1])
             post.append(abstract_state(w))
             if w.halt:
                 break
